@@ -316,7 +316,10 @@ def shape_graph_case(rng, name, st, tiny=False):
     w = rand_weight(rng)
     if name == "GRAPH.NODE*ADD": st["int"] = [rng.choice(GSTATES)] + keep(st["int"])
     elif name == "GRAPH.NODE*GETSTATE": st["int"] = [nid()] + keep(st["int"])
-    elif name == "GRAPH.NODE*HISTORY": st["int"] = [rand_pos(rng, gs), nid(top_only=0.45)] + keep(st["int"])
+    elif name == "GRAPH.NODE*HISTORY":
+        pos = rand_pos(rng, gs)
+        there = sorted(gs[len(gs) - 1 - pos].nodes) if 0 <= pos < len(gs) else []
+        st["int"] = [pos, rng.choice(there) if there and rng.random() < 0.6 else nid(top_only=0.3)] + keep(st["int"])
     elif name == "GRAPH.NODE*SETSTATE": st["int"] = [rng.choice(GSTATES), nid()] + keep(st["int"])
     elif name in ("GRAPH.NODE*NEIGHBORS", "GRAPH.NODE*PREDECESSORS", "GRAPH.NODE*SUCCESSORS"):
         st["ivec"] = [rand_filter(rng)] + keep(st["ivec"]); st["int"] = [nid()] + keep(st["int"])
@@ -329,11 +332,15 @@ def shape_graph_case(rng, name, st, tiny=False):
     elif name == "GRAPH.NODES*HISTORY":
         st["int"] = [rand_pos(rng, gs)] + keep(st["int"]); st["ivec"] = [rand_filter(rng)] + keep(st["ivec"])
     elif name in ("GRAPH.EDGE*ADD", "GRAPH.EDGE*SETWEIGHT", "GRAPH.EDGE*GETWEIGHT", "GRAPH.EDGE*HISTORY"):
-        top = gs[-1] if gs else PyGraph()
-        pairs = [(x[0], d) for d, l in top.edges.items() for x in l]
-        if pairs and rng.random() < 0.45: o, d = rng.choice(sorted(pairs))
+        pos = rand_pos(rng, gs) if name == "GRAPH.EDGE*HISTORY" else 0
+        at = gs[len(gs) - 1 - pos] if 0 <= pos < len(gs) else PyGraph()
+        pairs = [(x[0], d) for d, l in at.edges.items() for x in l]
+        ks = sorted(at.nodes)
+        r = rng.random()
+        if name == "GRAPH.EDGE*ADD" and ks and r < 0.55: o, d = rng.choice(ks), rng.choice(ks)
+        elif pairs and r < (0.7 if name != "GRAPH.EDGE*ADD" else 0.65): o, d = rng.choice(sorted(pairs))
         else: o, d = nid(), nid()
-        st["int"] = ([rand_pos(rng, gs)] if name == "GRAPH.EDGE*HISTORY" else []) + [d, o] + keep(st["int"])
+        st["int"] = ([pos] if name == "GRAPH.EDGE*HISTORY" else []) + [d, o] + keep(st["int"])
         if name in ("GRAPH.EDGE*ADD", "GRAPH.EDGE*SETWEIGHT"): st["float"] = [w] + keep(st["float"])
     # now and then an operand is missing
     if rng.random() < 0.08:
